@@ -337,8 +337,12 @@ def arith(op, a, b):
             return mk_int(x / y if op == "//" else x % y)
         raise Unsupported("division by a symbolic / non-positive divisor")
     if op == "<<":
+        if isinstance(a, int) and a == 1:
+            return mk_int(specfn.pow2(y))
         return mk_int(x * specfn.pow2(y))
     if op == ">>":
+        if isinstance(b, int) and b >= 0:
+            return mk_int(x / (2 ** b))
         return mk_int(x / specfn.pow2(y))
     if op == "&":
         return specfn.bit_and(a, b)
